@@ -12,6 +12,8 @@ Trajectory.center_coordinates run on generated conformations; every execution is
   symmetry       |rmsd(A,B)^2 - rmsd(B,A)^2| <= 2 bound    (roles, frames and index lists swapped)
   rigid-motion   rmsd unchanged when target or reference is replaced by R x + t (float64, cast to float32):
                  |r'^2 - r^2| <= bound + bound' + 2 sqrt(msd*) e + e^2,  e = sqrt(3) eps32 max|moved coords| (the cast)
+  centred        center_coordinates(): every coordinate equals x - centroid (float64) within 2 eps32 (D + R_s) and the stored
+                 trace equals sum |c|^2 within 8 eps32 G  (what makes a float32-accumulated centroid visible at large N, D)
   precentered    after center_coordinates(): precentered=True == precentered=False == oracle (and, with the
                  second-order (eps32 D)^2 term, the oracle of the uncentred data); precentered=True with atom_indices
                  (documented as ignored) == plain
@@ -32,6 +34,16 @@ Trajectory.center_coordinates run on generated conformations; every execution is
   frame-alone    rmsd(traj)[i] == rmsd(traj[i])[0] bit-for-bit
   junk           inputs are views into the middle of guard buffers filled with NaN / 1e30 / 0; the results of rmsd
                  and superpose are bit-identical whatever surrounds the arrays (SIMD tails for N mod 4 != 0)
+
+The bound (derivation, observation and frozen constants in vlib/oracle/c06_bound.py), with eps32 = 2^-24, N paired atoms,
+G_A, G_B the float64 traces of the centred structures, lam_1 >= .. >= lam_4 the float64 spectrum of the 4x4 key matrix,
+g_k = lam_1 - lam_k, S = max|lam|, D the largest coordinate magnitude:
+    bound = 8 [ eps32 (4 + N/512) (G_A+G_B)/N + (2/N) x_up ] + 32 (eps32 D)^2
+    x_up  = min( dP/(g2 g3 g4), sqrt(dP/(g3 g4)), cbrt(dP/g4), dP^(1/4) ),   dP = 16 eps32 S^4
+i.e. DESIGN's eps32 (c0 + c1 N) kappa (..) with c0 = 32, c1 = 1/64 and kappa = 1 + (2/N) x_up / (eps32 (4 + N/512)(G_A+G_B)/N).
+Observed on the unchanged tree (24 000 pairs): <= 3.5 / 4.1 / 4.4 / 6.1 units of eps32 (G_A+G_B)/N at N <= 67 / 100 / 1000 /
+4000 for separated spectra, and a quartic-coefficient noise constant <= 15.3 (frozen 16) uniformly over g2/S in 1e-7..1;
+the factor 8 is the margin on both.  The evidence records the histogram of |rmsd^2 - msd*| / bound per monitor.
 
 Three-valued: a pair with fewer than 3 atoms or with a collinear structure (sigma2/sigma1 < 1e-3 of either centred
 structure, float64) is outside the property's domain -> skip.
@@ -89,16 +101,16 @@ ASSUMPTIONS = [
     "team sizes are set in-process with omp_set_num_threads of the libgomp the extension is linked against",
     "md.rmsf is monitored for atom_indices=None only (with an index array it does not centre the rotated copy; not part of the statement)",
 ]
-FLOORS = {"quick": {"oracle": 8000, "parallel-bits": 1200, "superpose.attains": 4000, "superpose.distances": 1000000,
-                    "superpose.rigid": 5000, "symmetry": 400, "rigid-motion": 3500, "self": 350, "precentered": 4500,
-                    "thread-sweep": 6000, "frame-alone": 400, "junk": 1900, "rmsf": 5000, "lprmsd": 2000, "mirror": 4500,
-                    "alignment": 3000}}
+FLOORS = {"quick": {"oracle": 6000, "parallel-bits": 800, "superpose.attains": 3000, "superpose.distances": 700000,
+                    "superpose.rigid": 3500, "symmetry": 280, "rigid-motion": 2500, "self": 250, "precentered": 3000,
+                    "centred": 2400, "thread-sweep": 4000, "frame-alone": 280, "junk": 1300, "rmsf": 3500, "lprmsd": 1400,
+                    "mirror": 3000, "alignment": 2000}}
 
 KINDS = ["rmsd", "superpose", "relations", "rmsd", "superpose", "precentered", "threads", "rmsd", "superpose", "rmsf",
          "junk", "lprmsd", "alignment"]
 NS = {"quick": list(range(3, 68)) + [100, 1000, 4000],
       "thorough": list(range(3, 132)) + [255, 256, 257, 258] + list(range(997, 1005)) + [3998, 3999, 4000, 4001]}
-NCASES = {"quick": 9100, "thorough": 130000}
+NCASES = {"quick": 6500, "thorough": 130000}
 SHAPES = ["random", "random", "chain", "planar", "planar0", "aniso", "sym", "nearline"]
 RELS = ["unrelated", "pert4", "pert2", "pert1", "identical", "mirror", "mirrorpert"]
 ROTS = ["random", "random", "random", "identity", "half_exact", "half_axis", "near_half", "small"]
@@ -315,7 +327,8 @@ def _observe_case(case, ctx):
 
 # ------------------------------------------------------------------------------------------------ judges
 def _judge_rmsd(ctx, r, prs, w, label, monitor="oracle"):
-    """r: float32 rmsd array from mdtraj, prs: oracle pairs.  Returns per-frame bounds (nan = skipped)."""
+    """r: float32 rmsd array from mdtraj, prs: oracle pairs, w: the Work whose coordinate magnitudes enter the
+    (eps32 D)^2 term.  Returns per-frame bounds (nan = skipped)."""
     nf = len(prs)
     out = np.full(nf, np.nan)
     r = np.asarray(r)
@@ -389,7 +402,7 @@ def _judge_superposed(ctx, before, after, w, prs, label):
         overflow = p.in_domain and p.qsqr > ob.QSQR_FLOAT32_OVERFLOW
         if not np.isfinite(dd).all() or dd.max() > 2 * e_atom:
             j = int(np.argmax(np.where(np.isfinite(dd), dd, np.inf)))
-            both = ("selected" if P[j, 0] in w.ia else "unselected") + "-" + ("selected" if P[j, 1] in w.ia else "unselected")
+            both = "-".join(sorted(["selected" if P[j, 0] in w.ia else "unselected", "selected" if P[j, 1] in w.ia else "unselected"]))
             ctx.violation("superpose.distances", _classify_rotation(p) if overflow else f"{label}:distance-changed:{both}",
                           f"{label}: distance between atoms {P[j, 0]} and {P[j, 1]} ({both}) changed from {d0[j]:.9g} to {d1[j]:.9g} "
                           f"(tolerance {2 * e_atom:.3g})", frame=f)
@@ -542,6 +555,34 @@ def _clone(w, X=None, Y=None):
     return c
 
 
+def _judge_centred(ctx, X32, t):
+    """center_coordinates(): the float32 mean is the only first-order error (|m_f - m| <= eps32 D per component, the
+    subtraction is exact or rounds by eps32 |c|), and the stored trace is sum |c|^2 of the centred float32 coordinates
+    (float32 squares accumulated in double, rounded once to float32: <= 4 eps32 G)."""
+    X = X32.astype(np.float64)
+    C = np.asarray(t.xyz, np.float64)
+    tr = None if t._rmsd_traces is None else np.asarray(t._rmsd_traces, np.float64)
+    for f in range(len(X)):
+        D = float(np.abs(X[f]).max())
+        rs = float(np.abs(X[f] - X[f].mean(0)).max())
+        tol = 2 * geom.EPS32 * (D + rs)
+        dev = float(np.abs(C[f] - (X[f] - X[f].mean(0))).max())
+        ctx.observe("centred.err/tol", _decade(dev / tol if tol > 0 else 0.0))
+        if not dev <= tol:
+            ctx.violation("centred", "center_coordinates:not-centred-within-float32-rounding",
+                          f"center_coordinates leaves coordinates {dev:.3g} nm away from x - centroid (float64); allowed {tol:.3g} "
+                          f"(N={X.shape[1]}, largest coordinate {D:.4g})", frame=f, N=X.shape[1])
+        else:
+            ctx.ok("centred")
+        if tr is not None and tr.shape == (len(X),):
+            G = float((C[f] * C[f]).sum())
+            if not abs(tr[f] - G) <= 8 * geom.EPS32 * G:
+                ctx.violation("centred", "center_coordinates:trace-is-not-sum-of-squares", f"_rmsd_traces[{f}] = {tr[f]:.9g}, sum |c|^2 of the "
+                              f"centred coordinates = {G:.9g} (N={X.shape[1]})", frame=f, N=X.shape[1])
+            else:
+                ctx.ok("centred")
+
+
 def _run_precentered(case, ctx):
     import mdtraj as md
     import warnings
@@ -551,6 +592,7 @@ def _run_precentered(case, ctx):
     t.center_coordinates()
     ref.center_coordinates()
     wc = _clone(w, X=np.array(t.xyz, copy=True), Y=np.array(ref.xyz, copy=True))
+    _judge_centred(ctx, w.X, t)
     prs_c = _pairs(wc)
     with warnings.catch_warnings():
         warnings.simplefilter("ignore")
@@ -558,7 +600,9 @@ def _run_precentered(case, ctx):
     rn = _rmsd(wc, True, precentered=False)
     ctx.observe("precentered", "atom_indices=None" if w.ai is None else "with atom_indices (documented: ignored)")
     label = "rmsd:precentered" if w.ai is None else "rmsd:precentered+atom_indices"
-    bounds = _judge_rmsd(ctx, rp, prs_c, wc, label, monitor="precentered")
+    # D is the magnitude of the *original* coordinates: precentered=True trusts the float32-centred data, whose residual
+    # centroid (<= eps32 D per component) is not removed again -- the second-order term (c) of the bound
+    bounds = _judge_rmsd(ctx, rp, prs_c, w, label, monitor="precentered")
     if np.shape(rp) != (len(w.X),) or np.shape(rn) != (len(w.X),):
         return
     for f in range(len(w.X)):
